@@ -563,6 +563,9 @@ def m_math_floor(x):
         _used("math.floor (fpRoundToIntegral RTN, then exact conversion)")
         r = z3.fpRoundToIntegral(z3.RTN(), x.e)
         return m_int(SFloat(r))
+    f = getattr(x, "_sx_floor", None)
+    if f is not None:
+        return f()
     return math.floor(x)
 
 
